@@ -6,7 +6,7 @@ ids = [p['id'] for p in props]
 
 CLAIMS = {
  "C18": dict(cat="other", ref="DESIGN.md section 4, C18",
-   text="EXPLICITLY WEAK: only necessary structural conditions - comparison normal form of both traversals (advance iff node key < key, siblings agree; match iff equal on the traversal's result), level loops down to 0 inclusive, Put splices levels 0..rank-1 reading the successor before linking, Remove's loop covers the node's levels and unlinks only where the path points to it, results under equal/not-equal with no other value source. The ordered-map behaviour over histories, independence from random heights and the printed form are NOT decided (they need a heap-shape invariant).",
+   text="EXPLICITLY WEAK: only necessary structural conditions, decided independently of the loop forms (helpers inlined with their loops; segments between loop heads classified by the successor they inspect) - both traversals compare only the key of cursor.fingers[index] after a nil test and advance iff it is less than the search key (siblings agree); the level loop begins a pass iff index >= 0, 'less' keeps the level, 'stop' lowers it by one, the cursor starts at the head, moves only to the inspected successor, the insertion path records the cursor once per level, the result is the level-0 successor; Put splices every level of the new node reading the successor before linking, a node's height never exceeds the list's levels, Remove's loop covers the node's levels and unlinks only where the path points to it; results under equal / not equal. The ordered-map behaviour over histories, the sorted-sublist invariant, independence from random heights and the printed form are NOT decided.",
    note="assumes the comparison trait is a total order; internal/maplike is staged into a temporary module (no module of the repository builds it)",
    tech="static analysis: path constraints and counted-loop bounds over SSA of the staged package"),
  "C19": dict(cat="other", ref="DESIGN.md section 4, C19",
